@@ -263,6 +263,13 @@ func runC12Swap(c *sim.Ctx, t *testing.T) {
 	nswaps := 1 + c.Intn(6, "nswaps")
 	ctl := &core.Control{Limit: 10}
 	recompile := c.Chance(1, 3, "recompile")
+	// fault: the updater is handed a version that was never compiled (a broken update).
+	// Whether the crew's UpdatableSpec takes it is its business; if it says it refused, no
+	// processing call may have seen it.
+	offerRaw := c.Chance(1, 4, "offerraw")
+	raw := &core.Spec{Name: "raw", Nodes: map[string]*core.Node{"s": {Branches: &core.Branches{Type: "message"}}}}
+	offered, refused := 0, 0
+	sawRaw := make([]int, 8)
 	us := core.NewUpdatableSpec(va)
 	type call struct{ got, wantA, wantB string }
 	calls := make([][]call, nw)
@@ -276,6 +283,13 @@ func runC12Swap(c *sim.Ctx, t *testing.T) {
 					msg := map[string]interface{}{"a": float64(10*i + j)}
 					sim.Yield("h#before-spec")
 					spec := us.Spec()
+					if spec == raw || spec == nil {
+						// the host installed a version that cannot run (or the crew let it through): this
+						// call is not compared; it is counted in case the version had been refused
+						sawRaw[i]++
+						calls[i] = append(calls[i], call{"raw", "raw", "raw"})
+						continue
+					}
 					w, _ := spec.Walk(ctx, st, []interface{}{msg}, ctl, nil)
 					// what either version alone makes of this call
 					wa, _ := va.Walk(ctx, st.Copy(), []interface{}{ref.CopyVal(msg)}, ctl, nil)
@@ -316,6 +330,14 @@ func runC12Swap(c *sim.Ctx, t *testing.T) {
 						next = d
 					}
 				}
+				if offerRaw && k == 0 {
+					offered++
+					if err := us.SetSpec(raw); err != nil {
+						refused++
+					} else {
+						sim.Yield("h#raw-accepted")
+					}
+				}
 				if k%2 == 0 {
 					us.SetSpec(next)
 				} else {
@@ -326,6 +348,14 @@ func runC12Swap(c *sim.Ctx, t *testing.T) {
 		s.Run()
 		s.Drain(500)
 	})
+	if offered > 0 && refused == offered {
+		for i, n := range sawRaw {
+			if n > 0 {
+				c.Violate("swap:refused-version-observed", "walker %d loaded the version that SetSpec refused (%d times): a call saw neither the old nor the new version", i, n)
+			}
+		}
+		c.Count("refused_versions")
+	}
 	sawA, sawB := 0, 0
 	for i, cs := range calls {
 		if len(cs) != nmsg {
